@@ -645,20 +645,33 @@ def shrink(case):
 CASES_HEADER = """From Coq Require Import QArith List Bool ZArith.
 Require Import SkV.C17.Model SkV.C17.Cases.
 Import ListNotations.
-Open Scope Q_scope.
+Open Scope Z_scope.
 """
+
+
+def _cq(x):
+    return cq(x) + "%Q"
+
+
+def _zl(zs):
+    """list Z literal inside a file whose open scope is Q_scope"""
+    return czlist(zs) + "%Z"
+
+
+def _civs(ivs):
+    return clist(["(%s, %s)%%Z" % (cz(a), cz(b)) for a, b in ivs])
 
 
 def _clab(lab):
     if lab[0] == "i":
-        return "(LInt %s)" % cz(lab[1])
+        return "(LInt %s%%Z)" % cz(lab[1])
     if lab[0] == "s":
-        return "(LStr %s)" % czlist([ord(ch) for ch in lab[1]])
-    return "(LStr %s)" % czlist([-1] + [ord(ch) for ch in lab[1]])   # foreign type: matches nothing
+        return "(LStr %s)" % _zl([ord(ch) for ch in lab[1]])
+    return "(LStr %s)" % _zl([-1] + [ord(ch) for ch in lab[1]])   # foreign type: matches nothing
 
 
 def _cqs(rs):
-    return clist([cq(r) for r in rs])
+    return clist([_cq(r) for r in rs])
 
 
 def _has_nan(out):
@@ -678,7 +691,7 @@ def _cclf(out):
     insts = []
     for i in range(n):
         if out["mkind"] == "votes":
-            mem = "(IVotes %s)" % clist(["(%s, %s)" % (_clab(votes[i]), cq(w))
+            mem = "(IVotes %s)" % clist(["(%s, %s)" % (_clab(votes[i]), _cq(w))
                                          for w, votes in out["members"] if i < len(votes)])
         else:
             mem = "(IRows %s)" % clist([_cqs(m[i]) for m in out["members"] if i < len(m)])
@@ -686,14 +699,13 @@ def _cclf(out):
     return "(mkclf %s %s %s %s %s %s)" % (
         clist([_clab(l) for l in out["ytrain"]]), clist([_clab(l) for l in out["classes"]]),
         "NearMax" if out["tie"] == "near" else "AnyMax", clist(insts),
-        clist([_clab(l) for l in out["ytest"]]), cq(out["score"]))
+        clist([_clab(l) for l in out["ytest"]]), _cq(out["score"]))
 
 
 def _cfeat(f):
     if any(v is None for v in f["row"]):
         return None
-    return "(%s, %s, %s)" % (_cqs(f["x"]), clist(["(%s, %s)" % (cz(a), cz(b)) for a, b in f["ivs"]]),
-                             _cqs(f["row"]))
+    return "(%s, %s, %s)" % (_cqs(f["x"]), _civs(f["ivs"]), _cqs(f["row"]))
 
 
 def coq_case(case, out):
@@ -712,22 +724,19 @@ def coq_case(case, out):
         n = out["n"]
         if any(v is None for v in out["pred"]) or len(out["pred"]) != n:
             return None
-        return "CReg %s" % clist(["(%s, %s)" % (_cqs([t[i] for t in out["trees"]]), cq(out["pred"][i]))
+        return "CReg %s" % clist(["(%s, %s)" % (_cqs([t[i] for t in out["trees"]]), _cq(out["pred"][i]))
                                   for i in range(n)])
     if k == "slope":
         if out["slope"] is None:
             return None
-        return "CSlope %s %s" % (_cqs(case["ys"]), cq(out["slope"]))
+        return "CSlope %s %s" % (_cqs(case["ys"]), _cq(out["slope"]))
     if k == "feat":
         if any(v is None for v in out["row"]):
             return None
-        return "CFeat %s %s %s" % (_cqs(case["x"]),
-                                   clist(["(%s, %s)" % (cz(a), cz(b)) for a, b in case["ivs"]]),
-                                   _cqs(out["row"]))
+        return "CFeat %s %s %s" % (_cqs(case["x"]), _civs(case["ivs"]), _cqs(out["row"]))
     if k == "intervals":
-        return "CIntervals %d%%nat %s %s %s %s" % (
-            case["ni"], cz(case["mi"]), cz(case["sl"]), czlist(case["draws"]),
-            clist(["(%s, %s)" % (cz(a), cz(b)) for a, b in out["ivs"]]))
+        return "CIntervals %d%%nat %s%%Z %s%%Z %s %s" % (
+            case["ni"], cz(case["mi"]), cz(case["sl"]), _zl(case["draws"]), _civs(out["ivs"]))
     return None
 
 
@@ -739,11 +748,10 @@ def coq_model_term(case):
     if k == "slope":
         return "(Qred (code_slope %s), Qred (ols_slope %s))" % (_cqs(case["ys"]), _cqs(case["ys"]))
     if k == "feat":
-        return "map Qred (tsf_features %s %s)" % (
-            clist(["(%s, %s)" % (cz(a), cz(b)) for a, b in case["ivs"]]), _cqs(case["x"]))
+        return "map Qred (tsf_features %s %s)" % (_civs(case["ivs"]), _cqs(case["x"]))
     if k == "intervals":
-        return "get_intervals %d%%nat %s %s %s" % (case["ni"], cz(case["mi"]), cz(case["sl"]),
-                                                   czlist(case["draws"]))
+        return "get_intervals %d%%nat %s%%Z %s%%Z %s" % (case["ni"], cz(case["mi"]), cz(case["sl"]),
+                                                       _zl(case["draws"]))
     if k == "basepredict":
         labels = LABELSETS[case["labelset"]][:case["k"]]
         cl = clist([_clab(_lab(v)) for v in labels])
